@@ -298,6 +298,11 @@ def run(chk, repo):
     for c_ in G.find_calls(wm.node, 'setdefault'):
         if unparse(c_.func.value) == 'wildcard_map' and len(c_.args) == 2:
             chk.ob('C18.g', f"'{unparse(c_)[:60]}' inserts only when the key is absent", repo.loc(wm, c_), True, fn=wm.qual)
+    for c_ in G.find_calls(wm.node, 'update'):
+        if unparse(c_.func.value) == 'wildcard_map':
+            chk.ob('C18.g', f"'{unparse(c_)[:50]}' inserts only when the key is absent", repo.loc(wm, c_), False,
+                   'dict.update overwrites existing entries: a lower-priority wildcard pattern takes over combinations already claimed by a higher-priority one '
+                   '(first-wins becomes last-wins)', key=wm.qual + '::insert-if-absent::update', fn=wm.qual)
     order_sorted = any(isinstance(l, ast.For) and re.sub(r'lambda \w+: self\.order\[\w+\]', 'lambda x: self.order[x]', unparse(l.iter)) == 'sorted(self.order, key=lambda x: self.order[x])'
                        for l in walk_no_nested(wm.node))
     chk.ob('C18.g', 'patterns are expanded in priority order', wm.where, order_sorted, 'wildcard patterns are not expanded in source-order priority', key=wm.qual + '::priority-order', fn=wm.qual)
